@@ -48,9 +48,10 @@ def gen_cases(tier, seed):
         lats, lons = (-85.0, -30.0, 0.0, 60.0, 85.0), (-170.0, 10.0 + ph)
         pitches, rolls = (-85.0, -40.0, 0.0, 40.0 + ph, 85.0), (-170.0, 0.0, 100.0 + ph)
         heads, vels = (-135.0, 0.0, 179.0 - ph), (0, 1, 2)
-    V = [(0.0, 0.0, 0.0), (30.0, -40.0, 5.0), (-200.0, 200.0, -20.0)]
-    return [dict(pva=[la, lo, 800.0, *V[v], r, p, h]) for la, lo, p, r, h, v in
-            itertools.product(lats, lons, pitches, rolls, heads, vels)]
+    # fractional values (an integer-valued lattice would hide a truncation to an integer dtype); two flight levels
+    V = [(0.0, 0.0, 0.0), (30.25, -40.6, 5.3), (-200.7, 200.4, -20.9)]
+    return [dict(pva=[la, lo, (800.0, 9300.5)[k % 2], *V[v], r, p, h]) for k, (la, lo, p, r, h, v) in
+            enumerate(itertools.product(lats, lons, pitches, rolls, heads, vels))]
 
 
 def true_measured(kind, p_true, lever, rates):
